@@ -218,11 +218,10 @@ theorem absDesc_facts : mkCD 0x00 = .ok ⟨0x00⟩ ∧ (⟨0x00⟩ : CD).isObjec
 
 theorem readAttr_body (cd : CD) (l c r u v : Bool) (d a : Attr) (rest : Bytes)
     (hl : cd.hasL = l) (hc : cd.hasC = c) (hr : cd.hasR = r) (hu : cd.hasU = u) (hv : cd.hasV = v)
-    (ha : attrOk a)
+    (hcount : a.count < 1073741824) (hval : v = true → valuesOk a)
     (el : l = false → a.label = d.label) (ec : c = false → a.count = d.count) (er : r = false → a.rc = d.rc)
     (eu : u = false → a.units = d.units) (ev : v = false → a.value = d.value) (ev' : v = true → a.value.isSome = true) :
     readAttr cd d (encAttrBody l c r u v a ++ rest) = .ok (a, rest) := by
-  obtain ⟨_, hcount, _, _, hval⟩ := ha
   unfold readAttr encAttrBody
   rw [hl, hc, hr, hu, hv]
   -- label
@@ -276,7 +275,7 @@ theorem readAttr_body (cd : CD) (l c r u v : Bool) (d a : Attr) (rest : Bytes)
     cases hval' : a.value with
     | none => rw [hval'] at hs; simp at hs
     | some vs =>
-      obtain ⟨hlen, hok⟩ := hval vs hval'
+      obtain ⟨hlen, hok⟩ := hval rfl vs hval'
       simp only [if_true, Option.getD_some]
       rw [← hlen, readValues_enc a.rc vs rest hok]
       cases a; simp_all
@@ -287,10 +286,19 @@ theorem readAttr_body (cd : CD) (l c r u v : Bool) (d a : Attr) (rest : Bytes)
 theorem readAttr_encAttr (cd : CD) (d a : Attr) (ch : AttrChoice) (rest : Bytes)
     (hl : cd.hasL = wantL d a ch) (hc : cd.hasC = wantC d a ch) (hr : cd.hasR = wantR d a ch)
     (hu : cd.hasU = wantU d a ch) (hv : cd.hasV = wantV d a ch)
-    (ha : attrOk a) (hnone : a.value = none → d.value = none) :
+    (hcount : a.count < 1073741824) (hfit : valuesOk a ∨ a.value = d.value)
+    (hnone : a.value = none → d.value = none) :
     readAttr cd d (encAttrBody (wantL d a ch) (wantC d a ch) (wantR d a ch) (wantU d a ch) (wantV d a ch) a ++ rest)
       = .ok (a, rest) := by
-  apply readAttr_body cd _ _ _ _ _ d a rest hl hc hr hu hv ha
+  apply readAttr_body cd _ _ _ _ _ d a rest hl hc hr hu hv hcount
+  · intro h
+    rcases hfit with hf | hf
+    · exact hf
+    · simp only [wantV, Bool.and_eq_true, Bool.not_eq_true', Bool.and_eq_false_iff, Bool.or_eq_false_iff,
+        Bool.not_eq_false', decide_eq_true_eq, beq_eq_false_iff_ne] at h
+      rcases h.2 with h2 | h2
+      · exact h2.2
+      · exact absurd hf h2
   · intro h; simp [wantL] at h; exact h.2
   · intro h; simp [wantC] at h; exact h.2
   · intro h; simp [wantR] at h; exact h.2
@@ -320,7 +328,7 @@ theorem readTemplate_enc (cols : List Column) : ∀ (chs : List AttrChoice) (see
         (wantC globalDefault col.attr (chs.headD default)) (wantR globalDefault col.attr (chs.headD default))
         (wantU globalDefault col.attr (chs.headD default)) (wantV globalDefault col.attr (chs.headD default))
       have hattr := readAttr_encAttr _ globalDefault col.attr (chs.headD default) (encCols cols chs.tail ++ rest)
-        f6 f7 f8 f9 f10 (hok col (by simp)) (fun _ => rfl)
+        f6 f7 f8 f9 f10 (hok col (by simp)).2.1 (Or.inl (hok col (by simp)).2.2.2.2) (fun _ => rfl)
       have hnot : seen.contains col.attr.label = false := by
         have := hseen
         cases hc : seen.contains col.attr.label with
@@ -405,7 +413,7 @@ theorem objLoop_enc (cols : List Column) : ∀ (cells : List Attr) (chs : List A
       cases hinv : col.inv with
       | true =>
         simp only [objLoop, encCells, hinv, if_true, ih']
-        rw [hcell.2.1 hinv]
+        rw [hcell.2.2.2.2.2.1 hinv]
       | false =>
         by_cases hstop : ((chs.headD default).stop && allDefault (col :: cols) (cell :: cells)) = true
         · have hall : allDefault (col :: cols) (cell :: cells) = true := by
@@ -435,10 +443,10 @@ theorem objLoop_enc (cols : List Column) : ∀ (cells : List Attr) (chs : List A
               | some vs =>
                 exfalso
                 apply habs
-                have := hcell.2.2 hv (by rw [hcv]; simp)
+                have := hcell.2.2.2.2.2.2 hv (by rw [hcv]; simp)
                 simp [isAbsentOf, this, hcv]
             have hattr := readAttr_encAttr _ col.attr cell (chs.headD default) (encCells cols cells chs.tail ++ rest)
-              f6 f7 f8 f9 f10 hcell.1 hnone
+              f6 f7 f8 f9 f10 hcell.2.1 hcell.2.2.2.2.1 hnone
             simp only [encCells, hinv, hstop, encCell, habs, encAttr, Bool.false_eq_true, if_false, List.cons_append,
               List.append_assoc, objLoop, f1, f2, f3, f4, Bool.not_true, hattr, ih']
 
